@@ -70,7 +70,7 @@ U.fn('syntax_kind.rs', '<rowan::SyntaxKind as From<TokenKind>>::from', attrs=['e
 U.item_attr('error.rs', 'impl', r'<SyntaxError as fmt::Display>', '#[verifier::external]')
 U.fn('error.rs', 'SyntaxError::new',
      ensures=['ret.range == range', 'ret.message@ == msg_text(message)'],
-     prologue='broadcast use ax_into_string;')
+     prologue='proof { ax_into_string(message); }')
 
 # ----------------------------------------------------------------------------- token_stream.rs
 U.insert_in('token_stream.rs', 'trait', 'TokenStream', '''
@@ -82,14 +82,14 @@ U.insert_in('token_stream.rs', 'trait', 'TokenStream', '''
     spec fn pos(&self) -> nat;
     /// an error message is parked and will be returned by take_error()
     spec fn has_error(&self) -> bool;
-    /// p is a char boundary of the input
-    spec fn is_bnd(&self, p: nat) -> bool;
+    /// the char boundaries (byte offsets) of the input
+    spec fn bnds(&self) -> spec_fn(nat) -> bool;
     proof fn lemma_len(&self) requires self.wf() ensures self.pos() <= self.src().len() <= u32::MAX;
 ''')
 EAT_ENS = [
     C('final(self).wf()', BOTH),
     C('final(self).src() == old(self).src()', BOTH),
-    C('forall|p: nat| final(self).is_bnd(p) == old(self).is_bnd(p)', 'C02'),
+    C('final(self).bnds() == old(self).bnds()', 'C02'),
     C('old(self).pos() <= final(self).pos() <= final(self).src().len()', BOTH, name='cursor moves forward, stays inside the text'),
     C('ret != TokenKind::Eof ==> final(self).pos() > old(self).pos()', 'C02', name='progress: every token but Eof consumes input'),
     C('ret == TokenKind::Eof ==> final(self).pos() == final(self).src().len() && old(self).pos() == final(self).pos()', BOTH, name='Eof only at the end of input'),
@@ -98,13 +98,13 @@ EAT_ENS = [
 ]
 U.fn('token_stream.rs', 'TokenStream::eat', requires=['old(self).wf()'], ensures=EAT_ENS)
 U.fn('token_stream.rs', 'TokenStream::cursor', requires=['self.wf()'],
-     ensures=[C('ret == self.pos()', BOTH), C('self.pos() <= self.src().len() <= u32::MAX', BOTH), C('self.is_bnd(ret as nat)', 'C02')])
+     ensures=[C('ret == self.pos()', BOTH), C('self.pos() <= self.src().len() <= u32::MAX', BOTH), C('(self.bnds())(ret as nat)', 'C02')])
 U.fn('token_stream.rs', 'TokenStream::text',
-     requires=['self.wf()', 'range.start <= range.end <= self.src().len()', 'self.is_bnd(range.start as nat)', 'self.is_bnd(range.end as nat)'],
+     requires=['self.wf()', 'range.start <= range.end <= self.src().len()', '(self.bnds())(range.start as nat)', '(self.bnds())(range.end as nat)'],
      ensures=[C('str_bytes(ret) == self.src().subrange(range.start as int, range.end as int)', 'C01', name='text(a..b) is the input slice')])
 U.fn('token_stream.rs', 'TokenStream::take_error', requires=['old(self).wf()'],
      ensures=[C('final(self).wf()', BOTH), C('final(self).src() == old(self).src()', BOTH), C('final(self).pos() == old(self).pos()', BOTH),
-              C('forall|p: nat| final(self).is_bnd(p) == old(self).is_bnd(p)', 'C02'),
+              C('final(self).bnds() == old(self).bnds()', 'C02'),
               C('old(self).has_error() ==> ret.is_some() && eco_view(&ret.unwrap()).len() > 0', 'C02', name='parked message is returned and non-empty')])
 
 # ----------------------------------------------------------------------------- lexer.rs
@@ -126,12 +126,12 @@ U.insert_in('lexer.rs', 'impl', '<Lexer as TokenStream>', '''
     closed spec fn src(&self) -> Seq<u8> { enc(self.chars()) }
     closed spec fn pos(&self) -> nat { boff(self.chars(), self.ci()) }
     closed spec fn has_error(&self) -> bool { self.err() }
-    closed spec fn is_bnd(&self, p: nat) -> bool { is_boundary(self.chars(), p) }
+    closed spec fn bnds(&self) -> spec_fn(nat) -> bool { |p: nat| is_boundary(self.chars(), p) }
     proof fn lemma_len(&self) { lemma_boff_mono(self.chars()); lemma_enc_len(self.chars()); }
 ''')
 MONO = 'proof { lemma_boff_mono(self.chars()); lemma_enc_len(self.chars()); }'
 U.fn('lexer.rs', '<Lexer as TokenStream>::eat',
-     prologue='proof { lemma_boff_mono(self.chars()); lemma_enc_len(self.chars()); lemma_mono_ind(self.chars(), self.ci(), self.chars().len()); }',
+     prologue='proof { lemma_boff_mono(self.chars()); lemma_enc_len(self.chars()); lemma_boff_gap(self.chars()); }',
      body_proofs=[])
 U.fn('lexer.rs', '<Lexer as TokenStream>::cursor', prologue=MONO)
 U.fn('lexer.rs', '<Lexer as TokenStream>::text',
@@ -148,7 +148,7 @@ U.fn('lexer.rs', 'Lexer::new',
 U.fn('lexer.rs', 'Lexer::error',
      requires=[C('msg_text(msg).len() > 0', 'C02', name='lexer error messages are non-empty')],
      ensures=['ret == TokenKind::Error', 'final(self).err()', 'final(self).chars() == old(self).chars()', 'final(self).ci() == old(self).ci()'],
-     prologue='broadcast use ax_into_eco;')
+     prologue='proof { ax_into_eco(msg); }')
 
 ADV = 'final(self).adv(old(self))'
 LEX_COMMON = ['old(self).lwf()']
@@ -177,7 +177,8 @@ for f, extra in [('whitespace', ['ret == TokenKind::Whitespace']),
 U.fn('lexer.rs', 'Lexer::preprocessor', requires=LEX_COMMON,
      ensures=[C(ADV, BOTH), 'ret != TokenKind::Eof', 'ret != TokenKind::Error',
               C('(ret == TokenKind::Ifdef || ret == TokenKind::Ifndef) ==> final(self).ci() >= old(self).ci() + 5', 'C02')],
-     prologue='proof { lemma_boff_mono(self.chars()); }')
+     prologue='proof { lemma_boff_mono(self.chars()); }',
+     body_proofs=[(r'match ident \{', 'assert(ident@ == self.chars().subrange(old(self).ci() as int, self.ci() as int));')])
 NUM_REQ = LEX_COMMON + ['is_boundary(old(self).chars(), start as nat)', 'start <= boff(old(self).chars(), old(self).ci())']
 U.fn('lexer.rs', 'Lexer::number', requires=NUM_REQ,
      ensures=[C(ADV, BOTH), 'ret != TokenKind::Eof', 'ret == TokenKind::Error ==> final(self).err()', 'ret != TokenKind::Ifdef && ret != TokenKind::Ifndef'],
@@ -190,12 +191,13 @@ U.fn('lexer.rs', 'is_newline', ensures=["ret == (c == '\\r' || c == '\\n')"])
 U.fn('lexer.rs', 'interpret_number', attrs=['external_body'])
 
 # ----------------------------------------------------------------------------- preprocessor.rs
+U.prepend('preprocessor.rs', 'broadcast use {ax_msg_str};')
 U.insert_in('preprocessor.rs', 'impl', '<PreProcessor as TokenStream>', '''
     closed spec fn wf(&self) -> bool { self.token_stream.wf() && (self.error.is_some() ==> eco_view(&self.error.unwrap()).len() > 0) }
     closed spec fn src(&self) -> Seq<u8> { self.token_stream.src() }
     closed spec fn pos(&self) -> nat { self.token_stream.pos() }
     closed spec fn has_error(&self) -> bool { self.error.is_some() || self.token_stream.has_error() }
-    closed spec fn is_bnd(&self, p: nat) -> bool { self.token_stream.is_bnd(p) }
+    closed spec fn bnds(&self) -> spec_fn(nat) -> bool { self.token_stream.bnds() }
     proof fn lemma_len(&self) { self.token_stream.lemma_len(); }
 ''')
 U.append('preprocessor.rs', '''
@@ -206,7 +208,7 @@ impl<T: TokenStream> PreProcessor<T> {
     /// frame: same input, cursor moved forward
     pub open spec fn padv(&self, o: &Self) -> bool {
         self.wf() && self.src() == o.src() && o.pos() <= self.pos() <= self.src().len()
-        && (forall|p: nat| self.is_bnd(p) == o.is_bnd(p))
+        && (self.bnds() == o.bnds())
     }
 }
 ''')
@@ -217,7 +219,7 @@ U.fn('preprocessor.rs', '<PreProcessor as TokenStream>::take_error')
 U.fn('preprocessor.rs', 'PreProcessor::new',
      requires=['token_stream.wf()'],
      ensures=['ret.wf()', 'ret.src() == token_stream.src()', 'ret.pos() == token_stream.pos()',
-              'forall|p: nat| ret.is_bnd(p) == token_stream.is_bnd(p)'])
+              'ret.bnds() == token_stream.bnds()'])
 U.fn('preprocessor.rs', 'PreProcessor::define_macro', ensures=['final(self).inner() == old(self).inner()', 'final(self).perror() == old(self).perror()'])
 U.fn('preprocessor.rs', 'PreProcessor::macros')
 PP_REQ = ['old(self).wf()']
@@ -227,28 +229,29 @@ U.fn('preprocessor.rs', 'PreProcessor::error',
      requires=[C('msg_text(message).len() > 0', 'C02', name='preprocessor error messages are non-empty')],
      ensures=['ret == TokenKind::Error', 'final(self).perr()', 'final(self).inner() == old(self).inner()',
               'old(self).wf() ==> final(self).wf()'],
-     prologue='broadcast use ax_into_eco;')
+     prologue='proof { ax_into_eco(message); }')
 for f in ['process_if', 'process_define']:
     U.fn('preprocessor.rs', 'PreProcessor::' + f, requires=PP_REQ,
          ensures=PP_ENS + ['ret == TokenKind::PreProcessor || ret == TokenKind::Error', 'ret == TokenKind::Error ==> final(self).has_error()'])
 U.fn('preprocessor.rs', 'PreProcessor::process_else', requires=PP_REQ, ensures=PP_ENS + ['ret == TokenKind::PreProcessor'])
 U.fn('preprocessor.rs', 'PreProcessor::process_endif', ensures=['*final(self) == *old(self)', 'ret == TokenKind::PreProcessor'])
 U.fn('preprocessor.rs', 'PreProcessor::next_not_trivia', requires=PP_REQ,
-     ensures=PP_ENS + ['ret.0 <= final(self).pos()', 'final(self).is_bnd(ret.0 as nat)', 'final(self).perror() == old(self).perror()',
+     ensures=PP_ENS + ['ret.0 <= final(self).pos()', '(final(self).bnds())(ret.0 as nat)', 'final(self).perror() == old(self).perror()',
                        'ret.1 != TokenKind::Eof ==> final(self).pos() > ret.0', 'ret.0 >= old(self).pos()'],
-     loops={0: dict(invariant=['self.padv(old(self))', 'self.error == old(self).error'], decreases='self.src().len() - self.pos()')})
+     loops={0: dict(invariant=['self.padv(old(self))', 'self.error == old(self).error'], decreases='self.src().len() - self.pos()')},
+     prologue='proof { self.token_stream.lemma_len(); }')
 U.fn('preprocessor.rs', 'PreProcessor::eat_until_else_or_endif', requires=PP_REQ, ensures=PP_ENS,
      loops={0: dict(invariant=['self.padv(old(self))', 'depth as int >= 1', '6 * (depth as int - 1) <= self.pos() - old(self).pos()', 'self.src().len() <= u32::MAX'],
                     decreases='self.src().len() - self.pos()')},
      prologue='proof { self.token_stream.lemma_len(); }')
 
 # ----------------------------------------------------------------------------- parser.rs
-U.prepend('parser.rs', 'broadcast use {ax_msg_str, ax_msg_eco, ax_msg_string, ax_usize_to_text_size, ax_str_bytes};')
+U.prepend('parser.rs', 'broadcast use {ax_msg_str, ax_msg_eco, ax_msg_string, ax_str_bytes};')
 U.append('parser.rs', '''
 /// C02: every recorded syntax error has a non-empty message and a range inside the text
 pub open spec fn err_ok<T: TokenStream>(e: SyntaxError, ts: &T) -> bool {
     e.message@.len() > 0 && tr_start(e.range) <= tr_end(e.range) <= ts.src().len()
-    && ts.is_bnd(tr_start(e.range)) && ts.is_bnd(tr_end(e.range))
+    && (ts.bnds())(tr_start(e.range)) && (ts.bnds())(tr_end(e.range))
 }
 /// the same statement over the input text (used by parse())
 pub open spec fn errs_ok_seq(errs: Seq<SyntaxError>, text: Seq<char>) -> bool {
@@ -287,7 +290,7 @@ impl<T: TokenStream> ParserBase<T> {
         &&& self.token_stream.wf()
         &&& self.rb() == self.token_stream.pos()
         &&& self.ra() <= self.rb() <= self.srcv().len() <= u32::MAX
-        &&& self.token_stream.is_bnd(self.ra()) && self.token_stream.is_bnd(self.rb())
+        &&& (self.token_stream.bnds())(self.ra()) && (self.token_stream.bnds())(self.rb())
         &&& (self.current == TokenKind::Error && !saved ==> self.token_stream.has_error())
         &&& (self.current == TokenKind::Eof ==> self.ra() == self.rb() && self.rb() == self.srcv().len())
         &&& (self.bv().parents.len() > 0 ==> self.bv().parents.last() <= self.bv().n)
@@ -301,7 +304,7 @@ impl<T: TokenStream> ParserBase<T> {
     pub open spec fn inv(&self, saved: bool) -> bool { self.inv_s(saved) && self.inv_t(saved) }
     pub open spec fn same_shape(&self, o: &Self) -> bool {
         self.bv().parents =~= o.bv().parents && self.bv().n >= o.bv().n && self.srcv() == o.srcv()
-        && (forall|p: nat| self.ts().is_bnd(p) == o.ts().is_bnd(p))
+        && (self.ts().bnds() == o.ts().bnds())
     }
     /// a node may be closed
     pub open spec fn open_node(&self) -> bool { self.bv().parents.len() > 0 }
@@ -318,10 +321,10 @@ INV_ENS = [C('final(self).inv_s(false)', BOTH), C('final(self).inv_t(false)', 'C
 SHAPE = C('final(self).same_shape(old(self))', BOTH)
 FUEL_LE = C('final(self).fuel() <= old(self).fuel()', 'C02')
 U.fn('parser.rs', 'ParserBase::new',
-     requires=['token_stream.wf()', 'token_stream.pos() == 0', 'token_stream.is_bnd(0)'],
+     requires=['token_stream.wf()', 'token_stream.pos() == 0', '(token_stream.bnds())(0)'],
      ensures=[C('ret.inv_s(false)', BOTH), C('ret.inv_t(false)', 'C01'), 'ret.srcv() == token_stream.src()',
               'ret.bv().parents.len() == 0', 'ret.bv().n == 0', 'ret.errs().len() == 0',
-              'forall|p: nat| ret.ts().is_bnd(p) == token_stream.is_bnd(p)'])
+              'ret.ts().bnds() == token_stream.bnds()'])
 U.fn('parser.rs', 'ParserBase::finish',
      requires=['self.inv(false)', C('self.bv().n == 1 && self.bv().parents.len() == 0', BOTH, name='builder holds exactly one finished root node'),
                'self.cur() == TokenKind::Eof'],
@@ -330,7 +333,7 @@ U.fn('parser.rs', 'ParserBase::builder',
      ensures=['*ret == old(self).bld()', 'final(self).bld() == *final(ret)', 'final(self).same_but_builder(old(self))'])
 NODE_FRAME = ['final(self).fuel() == old(self).fuel()', 'final(self).cur() == old(self).cur()', 'final(self).srcv() == old(self).srcv()',
               'final(self).bv().text == old(self).bv().text', 'final(self).errs() == old(self).errs()',
-              'forall|p: nat| final(self).ts().is_bnd(p) == old(self).ts().is_bnd(p)']
+              'final(self).ts().bnds() == old(self).ts().bnds()']
 U.fn('parser.rs', 'ParserBase::start_node', requires=PINV,
      ensures=INV_ENS + ['final(self).bv().parents == old(self).bv().parents.push(old(self).bv().n)', 'final(self).bv().n == old(self).bv().n'] + NODE_FRAME)
 U.fn('parser.rs', 'ParserBase::start_node_at',
@@ -351,7 +354,7 @@ U.fn('parser.rs', 'ParserBase::error',
               C('final(self).errs_ok()', 'C02', name='recorded error is well-formed'),
               'forall|s: bool| old(self).inv_s(s) ==> final(self).inv_s(s)', 'forall|s: bool| old(self).inv_t(s) ==> final(self).inv_t(s)',
               'final(self).fuel() == old(self).fuel()', 'final(self).bv() == old(self).bv()', 'final(self).cur() == old(self).cur()', 'final(self).ts() == old(self).ts()'],
-     prologue='broadcast use ax_into_string; proof { self.token_stream.lemma_len(); }')
+     prologue='proof { self.token_stream.lemma_len(); ax_usize_to_text_size(self.current_range.start); ax_usize_to_text_size(self.current_range.end); }')
 EAT_LIKE = INV_ENS + [SHAPE, FUEL_LE]
 U.fn('parser.rs', 'ParserBase::error_and_eat',
      requires=PINV + [C('msg_text(message).len() > 0', 'C02')],
@@ -380,11 +383,11 @@ U.fn('parser.rs', 'ParserBase::save', requires=PINV,
      ensures=[C('final(self).inv_s(true)', BOTH), C('final(self).inv_t(true)', 'C01', name='save pushes exactly the look-ahead token text'),
               'final(self).cur() == old(self).cur()', 'final(self).fuel() == old(self).fuel()',
               'final(self).bv().parents == old(self).bv().parents', 'final(self).bv().n == old(self).bv().n + 1', 'final(self).srcv() == old(self).srcv()',
-              'forall|p: nat| final(self).ts().is_bnd(p) == old(self).ts().is_bnd(p)'],
+              'final(self).ts().bnds() == old(self).ts().bnds()'],
      prologue='proof { self.token_stream.lemma_len(); }')
 U.fn('parser.rs', 'ParserBase::lex', requires=['old(self).inv(true)'],
      ensures=INV_ENS + ['final(self).bv() == old(self).bv()', 'final(self).srcv() == old(self).srcv()',
-                        'forall|p: nat| final(self).ts().is_bnd(p) == old(self).ts().is_bnd(p)',
+                        'final(self).ts().bnds() == old(self).ts().bnds()',
                         C('old(self).cur() != TokenKind::Eof ==> final(self).fuel() < old(self).fuel()', 'C02', name='lex makes progress'),
                         FUEL_LE])
 U.fn('parser.rs', 'ParserBase::skip', requires=PINV,
